@@ -12,6 +12,8 @@ def main():
     seed = int(os.environ.get("VERIF_SEED", "0") or 0)
     if a.update_baseline:
         os.environ["PYVC_UPDATE_BASELINE"] = "1"
+    if a.tier == "thorough" and "PYVC_NO_CACHE" not in os.environ:
+        os.environ["PYVC_NO_CACHE"] = "1"          # thorough: every verification condition goes to the solver
     pid = a.pid.upper()
     try:
         mod = importlib.import_module("props.%s" % pid.lower())
